@@ -241,7 +241,15 @@ class Universe:
         arguments at every call site.  None if the helper can be reached in
         other ways (public name, passed around as a value, no call site,
         recursion)."""
-        if fi.parent_func is not None or fi.cls is not None or \
+        ctor_of = None
+        if fi.cls is not None and fi.name == '__init__' and \
+                fi.parent_func is None and '.' not in fi.cls.qualname and \
+                fi.cls.node.name.startswith('_') and \
+                not fi.cls.node.name.startswith('__'):
+            # the constructor of a private module-level class sees what
+            # the places that instantiate the class hand it
+            ctor_of = fi.cls
+        elif fi.parent_func is not None or fi.cls is not None or \
                 not fi.name.startswith('_') or fi.name.startswith('__'):
             return None
         busy = self.__dict__.setdefault('_busy_tags', set())
@@ -265,14 +273,18 @@ class Universe:
                             loaded[(f.module.name, n.id)] = True
             self._call_idx = idx
             self._loaded_idx = loaded
-        if self._loaded_idx.get((fi.module.name, fi.name)):
+        callee_name = ctor_of.node.name if ctor_of else fi.name
+        if self._loaded_idx.get((fi.module.name, callee_name)):
             return None
-        sites = [(f, c) for f, c in idx.get((fi.module.name, fi.name), [])
+        sites = [(f, c) for f, c in idx.get((fi.module.name, callee_name), [])
                  if model.enclosing_function(c) is f.node]
         if not sites:
             return None
         a = fi.node.args
         pos = [x.arg for x in a.posonlyargs + a.args]
+        self_name = None
+        if ctor_of:
+            self_name, pos = pos[0], pos[1:]
         acc = {n: [set(), set()] for n in pos}
         busy.add(fi.key)
         try:
@@ -296,6 +308,8 @@ class Universe:
         finally:
             busy.discard(fi.key)
         tags = {}
+        if self_name:
+            tags[self_name] = ({origins.SELF}, set())
         for n in pos:
             obj, inner = acc[n]
             if n in CTX_NAMES and not obj:
@@ -325,13 +339,52 @@ class Universe:
             tags[x.arg] = ({('param', x.arg)}, {('derived', x.arg)})
         return tags
 
+    def ctor_attrs(self, fi):
+        """For a method of a private module-level class: the attributes of
+        self that are bound exactly once in the whole class, in __init__,
+        straight from a constructor parameter -> what the instantiation
+        sites hand for that parameter."""
+        ci = fi.cls
+        if ci is None or not fi.is_method or fi.name == '__init__' or \
+                fi.parent_func is not None:
+            return None
+        cache = self.__dict__.setdefault('_ctor_attrs', {})
+        if ci.key in cache:
+            return cache[ci.key]
+        cache[ci.key] = None
+        init = ci.methods.get('__init__')
+        if init is None:
+            return None
+        tags = self._tags_from_call_sites(init)
+        if tags is None:
+            return None
+        stores = {}
+        for m in ci.methods.values():
+            selfn = m.params()[0] if m.params() else None
+            for n in ast.walk(m.node):
+                if isinstance(n, ast.Attribute) and isinstance(
+                        n.ctx, (ast.Store, ast.Del)) and isinstance(
+                        n.value, ast.Name) and n.value.id == selfn:
+                    stores.setdefault(n.attr, []).append((m, n))
+        out = {}
+        for attr, lst in stores.items():
+            if len(lst) != 1 or lst[0][0] is not init:
+                continue
+            st = getattr(lst[0][1], '_parent', None)
+            if isinstance(st, ast.Assign) and len(st.targets) == 1 and \
+                    isinstance(st.value, ast.Name) and st.value.id in tags \
+                    and st.value.id != init.params()[0]:
+                out[attr] = tags[st.value.id]
+        cache[ci.key] = out or None
+        return cache[ci.key]
+
     def env(self, fi):
         if fi.key in self._envs:
             return self._envs[fi.key]
         outer = self.env(fi.parent_func) if fi.parent_func is not None \
             else None
         e = origins.Env(self.repo, fi, self.param_tags(fi), outer,
-                        self.summaries())
+                        self.summaries(), self.ctor_attrs(fi))
         self._envs[fi.key] = e
         return e
 
